@@ -312,3 +312,71 @@ func init() {
 		return Val{S: "Iface", T: "(ite (= (i_tag " + x.T + ") 0) (mkI 0 0) (mkI 777777 (i_tag " + x.T + ")))", Typ: p.typ(0)}
 	})
 }
+
+// ---- cometbft conversions and validations used by the tendermint light client's stateless validation
+// (T-prelude: they do not modify their arguments; a converted signed header validates only if the proto it was
+// converted from had both a header and a commit)
+func init() {
+	const cmt = "github.com/cometbft/cometbft/types"
+	pureFresh := func(name string) {
+		reg(name, func(p *preCall) Val {
+			p.fc().trusted["T-prelude: cometbft "+shortFn(name)+" does not modify its arguments (result uninterpreted; a nil error comes with a non-nil pointer result)"] = true
+			res := p.fr.freshResult(p.resT, "cmt")
+			if len(res.Tuple) == 2 && res.Tuple[0].S == "Int" && isErrorType(res.Tuple[1].Typ) {
+				if _, isPtr := res.Tuple[0].Typ.Underlying().(*types.Pointer); isPtr {
+					p.fc().B.Assert(implies(p.reach, implies(eq(res.Tuple[1].T, "0"), not(eq(res.Tuple[0].T, "0")))))
+				}
+			}
+			return res
+		})
+	}
+	for _, n := range []string{cmt + ".ValidatorSetFromProto", "(*" + cmt + ".ValidatorSet).Hash", cmt + ".BlockIDFromProto",
+		"github.com/cometbft/cometbft/light.ValidateTrustLevel", cmt + ".CommitFromProto", cmt + ".HeaderFromProto"} {
+		pureFresh(n)
+	}
+	reg(cmt+".SignedHeaderFromProto", func(p *preCall) Val {
+		fc := p.fc()
+		res := p.fr.freshResult(p.resT, "signedheader")
+		fc.trusted["T-prelude: cometbft SignedHeaderFromProto does not modify its argument; the converted value has a header / a commit iff the proto has"] = true
+		if len(res.Tuple) != 2 || p.args[0].S != "Int" {
+			return res
+		}
+		// a nil error comes with a non-nil result
+		fc.B.Assert(implies(p.reach, implies(eq(res.Tuple[1].T, "0"), not(eq(res.Tuple[0].T, "0")))))
+		pt, ok := p.args[0].Typ.Underlying().(*types.Pointer)
+		if !ok {
+			return res
+		}
+		proto := p.args[0]
+		if proto.PBase == nil {
+			proto.PBase = pt.Elem()
+		}
+		pv := fc.load(p.st, proto)
+		_, fh, ok1 := fc.B.fieldOf(pt.Elem(), "Header")
+		_, fcm, ok2 := fc.B.fieldOf(pt.Elem(), "Commit")
+		rp := res.Tuple[0]
+		rt, ok3 := rp.Typ.Underlying().(*types.Pointer)
+		if !ok1 || !ok2 || !ok3 {
+			return res
+		}
+		if rp.PBase == nil {
+			rp.PBase = rt.Elem()
+		}
+		rv := fc.load(p.st, rp)
+		fc.B.DeclFun("sh_header_nil", []string{rv.S}, "Bool")
+		fc.B.DeclFun("sh_commit_nil", []string{rv.S}, "Bool")
+		fc.B.Assert(implies(p.reach, and(
+			eq("(sh_header_nil "+rv.T+")", eq("("+fh.sel+" "+pv.T+")", "0")),
+			eq("(sh_commit_nil "+rv.T+")", eq("("+fcm.sel+" "+pv.T+")", "0")))))
+		return res
+	})
+	reg("("+cmt+".SignedHeader).ValidateBasic", func(p *preCall) Val {
+		fc := p.fc()
+		e := fc.freshErr("shvalid")
+		rv := p.args[0]
+		fc.B.DeclFun("sh_header_nil", []string{rv.S}, "Bool")
+		fc.B.DeclFun("sh_commit_nil", []string{rv.S}, "Bool")
+		fc.B.Assert(implies(p.reach, implies(eq(e.T, "0"), and(not("(sh_header_nil "+rv.T+")"), not("(sh_commit_nil "+rv.T+")")))))
+		return e
+	})
+}
